@@ -29,7 +29,10 @@ pub fn is_probe_failed_errno(proto: Protocol, v6: bool, raw: bool, op: Op, errno
 }
 
 pub fn is_addr_in_use(proto: Protocol, op: Op, errno: i32, raw: bool) -> bool {
-    errno == libc::EADDRINUSE && ((proto == Protocol::Tcp && matches!(op, Op::Bind | Op::Connect)) || (proto == Protocol::Udp && !raw && op == Op::Bind))
+    // only the TCP arm of the strategy re-issues a probe; for (unprivileged) UDP an address in
+    // use error ends the trace
+    let _ = raw;
+    errno == libc::EADDRINUSE && proto == Protocol::Tcp && matches!(op, Op::Bind | Op::Connect)
 }
 
 /// Compute the expected status of each dispatch group of a round.
@@ -257,4 +260,40 @@ pub fn round_brief(r: &PubRound) -> Value {
             ProbeStatus::NotSent => "N".to_string(),
         }).collect::<Vec<_>>(),
     })
+}
+
+/// Run a single tracer over a world, converting panics into violations / harness errors.
+/// Returns `None` (with `o` filled in) if the scenario could not be observed.
+pub fn run_guarded(
+    wcfg: &crate::world::WorldCfg,
+    tcfg: &TraceCfg,
+    snapshots: bool,
+    install: impl FnOnce(&std::sync::Arc<crate::world::World>),
+    o: &mut Outcome,
+    site: &str,
+    replay: &Value,
+    label: &str,
+) -> Option<(std::sync::Arc<crate::world::World>, RunResult)> {
+    let res = crate::framework::guarded(|| {
+        let world = crate::world::World::new(wcfg.clone());
+        install(&world);
+        let tracer = tcfg.builder().build().map_err(|e| format!("build: {e}"))?;
+        let r = crate::sim::run_tracer(&world, 0, &tracer, &crate::sim::RunOpts { snapshots });
+        Ok::<_, String>((world, r))
+    });
+    match res {
+        Err(p) if p.in_repo() => {
+            o.violate("no_panic", format!("{site}|{}", p.site()), format!("panic at {}:{}: {}", p.file, p.line, p.message), replay.clone());
+            None
+        }
+        Err(p) => {
+            o.harness_error = Some(format!("{label}: harness panic at {}:{}: {}", p.file, p.line, p.message));
+            None
+        }
+        Ok(Err(e)) => {
+            o.harness_error = Some(format!("{label}: {e}"));
+            None
+        }
+        Ok(Ok(x)) => Some(x),
+    }
 }
